@@ -16,6 +16,7 @@ import (
 	"strings"
 	"time"
 
+	"seata.apache.org/seata-go/pkg/protocol/message"
 	"seata.apache.org/seata-go/pkg/tm"
 
 	"verif/harness/atlab"
@@ -74,7 +75,7 @@ func main() {
 			continue
 		}
 		if o.Mode == "cover" {
-			schemas := []*atlab.Schema{fam[0], fam[1], fam[2], fam[5]}
+			schemas := []*atlab.Schema{fam[0], fam[1], fam[2], fam[5], atlab.ByName("t_compr")}
 			if o.Thorough() {
 				schemas = append(schemas, fam[4])
 			}
@@ -203,6 +204,49 @@ func cover(lab *atlab.Lab, t *trace.T, sc scenario, schema *atlab.Schema, style 
 				}
 			}
 			t.Add("Cover", "covered", covered, "missing", missing, "nsent", len(sent), "sig", sig)
+			// a locking read of both keys inside the same global transaction: the coordinator is asked about exactly
+			// the rows that are there, under the same key text a write registers for them
+			nlog := len(lab.Coord.Log())
+			q, args := schema.SelectForUpdateSQL([]int{1, 2})
+			nread := 0
+			var rerr error
+			if rows, err := lab.DB.QueryContext(ctx, q, args...); err != nil {
+				rerr = err
+			} else {
+				for rows.Next() {
+					nread++
+				}
+				rerr = rows.Err()
+				rows.Close()
+			}
+			asked := map[string]bool{}
+			for _, rec := range lab.Coord.Log()[nlog:] {
+				if req, ok := rec.Body.(message.GlobalLockQueryRequest); ok && rec.Dir == "in" {
+					for k := range keysOf(req.LockKey) {
+						if !strings.HasSuffix(k, ":") { // "TABLE:" - a query about no row at all (the read found nothing)
+							asked[k] = true
+						}
+					}
+				}
+			}
+			want := map[string]bool{}
+			for k := 1; k <= lab.NKeys; k++ {
+				if after[k-1] != atlab.Absent {
+					want[strings.ToUpper(schema.Name)+":"+schema.KeyText(k)] = true
+				}
+			}
+			same := rerr == nil && len(asked) == len(want)
+			for k := range want {
+				if !asked[k] {
+					same = false
+				}
+			}
+			askedL := make([]string, 0, len(asked))
+			for k := range asked {
+				askedL = append(askedL, k)
+			}
+			sort.Strings(askedL)
+			t.Add("SfuKeys", "same", same, "asked", askedL, "nread", nread, "err", rerr != nil, "sig", sig+":sfukeys")
 		}
 		return fmt.Errorf("done")
 	})
